@@ -571,6 +571,65 @@ Qed.
 
 End Algebra.
 
+(* ================================================================== histories on one object *)
+Lemma upd_length {A} j (f : A -> A) l : length (upd j f l) = length l.
+Proof. revert j; induction l as [|x l IH]; intros [|j]; cbn; try reflexivity. now rewrite IH. Qed.
+
+Lemma Forall_upd {A} (P : A -> Prop) j f (l : list A) :
+  Forall P l -> (forall x, nth_error l j = Some x -> P (f x)) -> Forall P (upd j f l).
+Proof.
+  revert j; induction l as [|x l IH]; intros [|j] H Hf; cbn; try exact H; inversion H; subst; constructor; auto.
+Qed.
+
+Section History.
+Context {T : Type}.
+
+Lemma wf_nth (gl : list (@grid T)) j g : Forall wf_grid gl -> nth_error gl j = Some g -> wf_grid g.
+Proof. intros H E. rewrite Forall_forall in H. apply H. eapply nth_error_In. exact E. Qed.
+
+Lemma apply_op_wf (m : @mdgrid T) a : Forall wf_grid (grid_list m) -> op_ok m a ->
+  Forall wf_grid (grid_list (apply_op m a)).
+Proof.
+  intros H Hok. destruct a as [j w|j p|j g]; cbn [apply_op grid_list].
+  - destruct Hok as (g & Hg & Hl). apply Forall_upd; [exact H|]. intros x Hx. rewrite Hg in Hx. inversion Hx; subst x.
+    pose proof (wf_nth _ _ _ H Hg) as Hw. unfold wf_grid in *. cbn. congruence.
+  - destruct Hok as (g & Hg & Hl). apply Forall_upd; [exact H|]. intros x Hx. rewrite Hg in Hx. inversion Hx; subst x.
+    pose proof (wf_nth _ _ _ H Hg) as Hw. unfold wf_grid in *. cbn. congruence.
+  - destruct Hok as [_ Hg]. apply Forall_upd; [exact H|]. intros x _. exact Hg.
+Qed.
+
+Lemma apply_op_valid (m : @mdgrid T) a : md_valid m -> md_valid (apply_op m a).
+Proof.
+  intros [Hne Hnd].
+  assert (G : forall j (f : @grid T -> @grid T), upd j f (grid_list m) <> []).
+  { intros j f E. apply (f_equal (@length _)) in E. rewrite upd_length in E. destruct (grid_list m); [congruence|discriminate]. }
+  destruct a as [j w|j p|j g]; (split; cbn [apply_op grid_list ndom]; [apply G|intros k Hk; rewrite upd_length; now apply Hnd]).
+Qed.
+
+Lemma run_preserves ops : forall (m : @mdgrid T), Forall wf_grid (grid_list m) -> md_valid m -> history_ok m ops ->
+  Forall wf_grid (grid_list (run_history m ops)) /\ md_valid (run_history m ops).
+Proof.
+  induction ops as [|a r IH]; intros m Hwf Hval Hok; [now split|].
+  destruct Hok as [Ha Hr]. cbn [run_history fold_left]. apply IH; [now apply apply_op_wf|now apply apply_op_valid|exact Hr].
+Qed.
+End History.
+
+(* after any history of setter calls / grid replacements, every route still gives the iterated quadrature over the
+   component grids AS THEY ARE NOW, and size / points / weights describe the current product set *)
+Lemma history_routes_agree_lemma (T : Type) (o : NumOps T) : semiring o ->
+  forall (m0 : mdgrid) (ops : list op) (fv : list point -> list point -> list T) (f : list point -> T) (c : nat),
+  Forall wf_grid (grid_list m0) -> md_valid m0 -> history_ok m0 ops -> vectorises fv f -> 1 <= c ->
+  let m := run_history m0 ops in
+  integrate_vec o m fv = nested_sum o (domains m) f /\
+  integrate_nonvec o m f c = nested_sum o (domains m) f /\
+  md_size m = N.of_nat (length (md_points m)) /\ length (md_points m) = length (md_weights o m).
+Proof.
+  intros S m0 ops fv f c Hwf Hval Hok Hv Hc m.
+  destruct (run_preserves ops m0 Hwf Hval Hok) as [Hwf' Hval']. fold m in Hwf', Hval'.
+  split; [now apply vec_nested_lemma|]. split; [now apply nonvec_nested_lemma|].
+  split; [now apply (size_spec_lemma o)|now apply md_lengths].
+Qed.
+
 (* ================================================================== combined statements used by C18_props.v *)
 Lemma product_order_lemma (A : Type) (ls : list (list A)) (ixs : list nat) (d : A) (dd : list A) :
   Forall2 (fun i l => i < length l) ixs ls ->
@@ -687,3 +746,17 @@ Example ex_init : md_init [exA; exB] None = Some exM /\ md_init [exB] (Some 3) =
   md_init (T := Z) [] None = None /\ md_init [exA; exB] (Some 2) = None /\ md_init [exA] (Some 0) = None /\
   md_init [exA] (Some (-1)) = None.
 Proof. vm_compute. repeat split. Qed.
+
+(* a history: integrate, re-weight the FIRST grid, move the points of the second, integrate again *)
+Example ex_history :
+  let ops := [SetWeights 0%nat [5; -2]; SetPoints 1%nat [[0; 0; 1]; [2; 2; 2]; [1; 0; 3]]] in
+  history_ok exM ops /\
+  integrate_vec ZOps exM (poly_vec ZOps exP) = 90 /\
+  integrate_vec ZOps (run_history exM ops) (poly_vec ZOps exP) = 4 /\
+  integrate_nonvec ZOps (run_history exM ops) (poly_eval ZOps exP) 4 = 4 /\
+  md_weights ZOps (run_history exM ops) = [10; 5; -5; -4; -2; 2].
+Proof.
+  cbv zeta. split.
+  - cbn. split; [exists exA; split; reflexivity|]. split; [exists exB; split; reflexivity|exact I].
+  - vm_compute. repeat split.
+Qed.
